@@ -243,7 +243,7 @@ structure RenOK (M M' : Machine) (ren : Array Int) (keep : Array Bool) : Prop wh
     the end of a loop a break leaves — is kept (decidable; `Machine.closedUnder`) -/
 def RefClosed (M : Machine) (keep : Array Bool) : Prop :=
   ∀ i, i < M.states.size → keep.getD i false = true → ∀ a ∈ (M.st i).arms,
-    Good M keep a.target ∧ ∀ t ∈ a.acts.targets, Good M keep t
+    (Good M keep a.target ∨ (a.acts.finishFirst = true ∧ a.acts.mayYield = false)) ∧ ∀ t ∈ a.acts.targets, Good M keep t
 
 theorem renT_neg (ren : Array Int) (t : Int) (h : t < 0) : renT ren t = -1 := by simp [renT, h]
 
@@ -361,6 +361,79 @@ theorem armTree_sim (o : SemOpts) (s : Int) (hs : Good M keep s) (src : St) (a :
 end
 
 
+theorem Acts.tree_sim_finishFirst (ren : Array Int) (good : Int → Prop)
+    (o : SemOpts) (x adv advBase : Nat) (re re' : Int → Nat → CTree) (oc oc' : Int → CTree)
+    (hre : ∀ h n, good h → Sim (renT ren) (re' (renT ren h) n) (re h n))
+    (hoc : ∀ h, good h → Sim (renT ren) (oc' (renT ren h)) (oc h)) :
+    ∀ (a : Acts) (st st' : Int) (kN kS kN' kS' : Int → CTree),
+      a.finishFirst = true → (∀ t ∈ a.targets, good t) →
+      Sim (renT ren) ((a.rename ren).tree ⟨o, x, adv, advBase, re', oc'⟩ st' kN' kS')
+        (a.tree ⟨o, x, adv, advBase, re, oc⟩ st kN kS)
+  | .nil, _, _, _, _, _, _, hf, _ => by simp [Acts.finishFirst] at hf
+  | .cons (.finish none) r, _, _, _, _, _, _, _, _ => by
+      simp only [Acts.rename, Act.rename, Acts.tree, Act.tree]; exact Sim.ret _ _ _ _
+  | .cons (.finish (some c)) r, _, _, _, _, _, _, _, _ => by
+      simp only [Acts.rename, Act.rename, Acts.tree, Act.tree]; exact Sim.ret _ _ _ _
+  | .cons (.hook n) r, st, st', kN, kS, kN', kS', hf, ht => by
+      simp only [Acts.rename, Act.rename, Acts.tree, Act.tree]
+      exact Sim.emit _ (Acts.tree_sim_finishFirst ren good o x adv advBase re re' oc oc' hre hoc r st st' kN kS kN' kS'
+        (by simpa [Acts.finishFirst] using hf) (fun t h => ht t (by simp [Acts.targets, h])))
+  | .cons (.append oos out) r, st, st', kN, kS, kN', kS', hf, ht => by
+      simp only [Acts.rename, Act.rename, Acts.tree, Act.tree]
+      exact Sim.ask _ (hre oos _ (ht oos (by simp [Acts.targets, Act.targets])))
+        (Sim.emit _ (Acts.tree_sim_finishFirst ren good o x adv advBase re re' oc oc' hre hoc r st st' kN kS kN' kS'
+          (by simpa [Acts.finishFirst] using hf) (fun t h => ht t (by simp [Acts.targets, h]))))
+  | .cons (.appendC oos out each e) r, st, st', kN, kS, kN', kS', hf, ht => by
+      simp only [Acts.rename, Act.rename, Acts.tree, Act.tree]
+      have hg := ht oos (by simp [Acts.targets, Act.targets])
+      refine Sim.ask _ ?_ (Sim.emit _ (Acts.tree_sim_finishFirst ren good o x adv advBase re re' oc oc' hre hoc r st st' kN kS kN' kS'
+          (by simpa [Acts.finishFirst] using hf) (fun t h => ht t (by simp [Acts.targets, h]))))
+      split
+      · exact hre oos _ hg
+      · exact hoc oos hg
+  | .cons (.set out e) r, st, st', kN, kS, kN', kS', hf, ht => by
+      simp only [Acts.rename, Act.rename, Acts.tree, Act.tree]
+      have ih := Acts.tree_sim_finishFirst ren good o x adv advBase re re' oc oc' hre hoc r st st' kN kS kN' kS'
+          (by simpa [Acts.finishFirst] using hf) (fun t h => ht t (by simp [Acts.targets, h]))
+      split
+      · exact ih
+      · exact Sim.emit _ ih
+  | .cons (.setStr out bs) r, st, st', kN, kS, kN', kS', hf, ht => by
+      simp only [Acts.rename, Act.rename, Acts.tree, Act.tree]
+      have ih := Acts.tree_sim_finishFirst ren good o x adv advBase re re' oc oc' hre hoc r st st' kN kS kN' kS'
+          (by simpa [Acts.finishFirst] using hf) (fun t h => ht t (by simp [Acts.targets, h]))
+      split
+      · exact ih
+      · exact Sim.emit _ ih
+  | .cons (.delete out) r, st, st', kN, kS, kN', kS', hf, ht => by
+      simp only [Acts.rename, Act.rename, Acts.tree, Act.tree]
+      have ih := Acts.tree_sim_finishFirst ren good o x adv advBase re re' oc oc' hre hoc r st st' kN kS kN' kS'
+          (by simpa [Acts.finishFirst] using hf) (fun t h => ht t (by simp [Acts.targets, h]))
+      split
+      · exact ih
+      · exact Sim.emit _ ih
+  | .cons (.yield _) r, _, _, _, _, _, _, hf, _ => by simp [Acts.finishFirst] at hf
+  | .cons (.brk _ _) r, _, _, _, _, _, _, hf, _ => by simp [Acts.finishFirst] at hf
+  | .cons (.cond _) r, _, _, _, _, _, _, hf, _ => by simp [Acts.finishFirst] at hf
+
+/-- the arm body of a transition that finishes first: where it nominally leads does not matter -/
+theorem armTree_sim_finishFirst {M M' : Machine} {ren : Array Int} {keep : Array Bool}
+    (o : SemOpts) (s s' : Int) (src : St) (a : Arm)
+    (hf : a.acts.finishFirst = true) (hy : a.acts.mayYield = false)
+    (hat : ∀ t ∈ a.acts.targets, Good M keep t) (x adv : Nat)
+    (re re' : Int → Nat → CTree)
+    (hre : ∀ h n, Good M keep h → Sim (renT ren) (re' (renT ren h) n) (re h n)) :
+    Sim (renT ren) (M'.armTree o s' (src.rename ren) (a.rename ren) x adv re')
+      (M.armTree o s src a x adv re) := by
+  simp only [Machine.armTree, Arm.rename_acts, Acts.rename_mayYield, hy, Bool.false_and, Arm.rename_fall,
+    Bool.false_eq_true, if_false]
+  apply Acts.tree_sim_finishFirst ren (Good M keep) o x adv adv re re' _ _ hre _ a.acts _ _ _ _ _ _ hf hat
+  intro h hh
+  split
+  · exact Sim.next _ _
+  · exact hre h _ hh
+
+
 section
 variable {M M' : Machine} {ren : Array Int} {keep : Array Bool} (hR : RenOK M M' ren keep)
 include hR
@@ -368,7 +441,8 @@ include hR
 theorem chain_sim (o : SemOpts) (s : Int) (hs : Good M keep s) (x adv : Nat) (st : St)
     (re re' : Int → Nat → CTree)
     (hre : ∀ h n, Good M keep h → Sim (renT ren) (re' (renT ren h) n) (re h n)) (arms : List Arm)
-    (harms : ∀ a ∈ arms, Good M keep a.target ∧ ∀ t ∈ a.acts.targets, Good M keep t) :
+    (harms : ∀ a ∈ arms, (Good M keep a.target ∨ (a.acts.finishFirst = true ∧ a.acts.mayYield = false)) ∧
+      ∀ t ∈ a.acts.targets, Good M keep t) :
     Sim (renT ren) (Machine.dispatch.chain M' o (renT ren s) x adv (st.rename ren) re' (arms.map (Arm.rename ren)))
       (Machine.dispatch.chain M o s x adv st re arms) := by
   induction arms with
@@ -376,7 +450,11 @@ theorem chain_sim (o : SemOpts) (s : Int) (hs : Good M keep s) (x adv : Nat) (st
   | cons a r ih =>
     have ha := harms a (by simp)
     have ihr := ih (fun b hb => harms b (by simp [hb]))
-    have hat := armTree_sim hR o s hs st a ha.1 ha.2 x adv re re' hre
+    have hat : Sim (renT ren) (M'.armTree o (renT ren s) (st.rename ren) (a.rename ren) x adv re')
+        (M.armTree o s st a x adv re) := by
+      rcases ha.1 with hg | ⟨hf, hy⟩
+      · exact armTree_sim hR o s hs st a hg ha.2 x adv re re' hre
+      · exact armTree_sim_finishFirst o s _ st a hf hy ha.2 x adv re re' hre
     simp only [List.map_cons, Machine.dispatch.chain, Arm.rename_cond]
     split
     · exact hat
@@ -433,8 +511,11 @@ theorem dispatch_sim (hC : RefClosed M keep) (o : SemOpts) :
             by_cases hacc : ((M.st s.toNat).accepting && a.err) = true
             · simp only [hacc, if_true]; exact Sim.ret _ _ _ _
             · simp only [hacc, if_false]
-              exact armTree_sim hR o s hgs (M.st s.toNat) a ha.1 ha.2 x adv
-                (fun s' adv' => M.dispatch o fuel s' x adv') (fun s' adv' => M'.dispatch o fuel s' x adv') hre
+              rcases ha.1 with hg | ⟨hf, hy⟩
+              · exact armTree_sim hR o s hgs (M.st s.toNat) a hg ha.2 x adv
+                  (fun s' adv' => M.dispatch o fuel s' x adv') (fun s' adv' => M'.dispatch o fuel s' x adv') hre
+              · exact armTree_sim_finishFirst o s _ (M.st s.toNat) a hf hy ha.2 x adv
+                  (fun s' adv' => M.dispatch o fuel s' x adv') (fun s' adv' => M'.dispatch o fuel s' x adv') hre
     · have hneg : s < 0 := by omega
       have c1 : (s < 0 ∨ s.toNat ≥ M.states.size) := Or.inl hneg
       have c2 : (renT ren s < 0 ∨ (renT ren s).toNat ≥ M'.states.size) := by
@@ -502,7 +583,10 @@ theorem closedUnder_sound (M : Machine) (keep : Array Bool) (h : M.closedUnder k
   rcases h i hi with h | h
   · rw [hk] at h; cases h
   · have := h a ha
-    exact ⟨(goodB_iff M keep _).mp this.1, fun t ht => (goodB_iff M keep t).mp (this.2 t ht)⟩
+    refine ⟨?_, fun t ht => (goodB_iff M keep t).mp (this.2 t ht)⟩
+    rcases this.1 with h1 | h1
+    · exact Or.inl ((goodB_iff M keep _).mp h1)
+    · exact Or.inr h1
 
 /-- **Removing states that no kept state refers to preserves behaviour, up to the renumbering.**  For every
     machine and every set `keep` of states closed under reference (`closedUnder`, decidable): from every kept
@@ -717,6 +801,16 @@ example : removeExample.reachable = #[true, false, true] ∧
     removeExample.removeInaccessible.states.size = 2 ∧
     ((removeExample.removeInaccessible.st 0).arms.map (·.target)) = [1] ∧
     renT (renumber removeExample.reachable 3) 2 = 1 := by
+  decide +kernel
+
+/-- a transition that finishes first may name a dropped state: `0 -a-> finish (nominally 1)`, state 1 dropped -/
+def finishExample : Machine :=
+  { states := #[⟨.normal, false, [⟨[97], .else_, 1, false, false, .cons (.finish none) .nil⟩]⟩,
+                ⟨.normal, false, []⟩],
+    start := 0, outs := #[], startActs := .nil, hooks := [], finishCodes := [], yieldCodes := [] }
+
+example : finishExample.reachable = #[true, false] ∧ finishExample.closedUnder finishExample.reachable = true ∧
+    ((finishExample.removeInaccessible.st 0).arms.map (·.target)) = [-1] := by
   decide +kernel
 
 /-- … and a set that is *not* closed (state 0 kept, its target 2 dropped) is rejected by the check -/
